@@ -592,6 +592,75 @@ theorem restoreWith_edgeData (keep : Bool) (s : GraphSnap) (hnd : (aKeys s.edgeD
   rw [hed]
   exact foldl_aInsert_nil s.edgeData hnd
 
+/-! ### counting edges row by row -/
+
+theorem sum_map_add (xs : List Nat) (f g : Nat → Nat) :
+    (xs.map (fun n => f n + g n)).sum = (xs.map f).sum + (xs.map g).sum := by
+  induction xs with
+  | nil => rfl
+  | cons x xs ih => simp only [List.map_cons, List.sum_cons, ih]; omega
+
+theorem sum_map_zero (xs : List Nat) : (xs.map (fun _ => 0)).sum = 0 := by
+  induction xs with
+  | nil => rfl
+  | cons x xs ih => simp [ih]
+
+theorem sum_indicator_range (k j : Nat) :
+    ((List.range j).map (fun n => if k = n then 1 else 0)).sum = if k < j then 1 else 0 := by
+  induction j with
+  | zero => simp
+  | succ j ih =>
+    rw [List.range_succ, List.map_append, List.sum_append, ih]
+    by_cases h1 : k < j
+    · have h2 : ¬ k = j := by omega
+      have h3 : k < j + 1 := by omega
+      simp [h1, h2, h3]
+    · by_cases h2 : k = j
+      · subst h2; simp
+      · have h3 : ¬ k < j + 1 := by omega
+        simp [h1, h2, h3]
+
+/-- a list of edges whose sources are at most `m` has as many elements as its rows 0 … m together -/
+theorem length_by_rows (l : List GEdge) (m : Nat) (hb : ∀ e ∈ l, e.src ≤ m) :
+    l.length = ((List.range (m + 1)).map (fun n => (l.filter (fun e => e.src = n)).length)).sum := by
+  induction l with
+  | nil => simp only [List.filter_nil, List.length_nil]; exact (sum_map_zero _).symm
+  | cons e l ih =>
+    have hfun : (fun n => ((e :: l).filter (fun e => decide (e.src = n))).length) =
+        (fun n => (if e.src = n then 1 else 0) + (l.filter (fun e => decide (e.src = n))).length) := by
+      funext n
+      by_cases h : e.src = n
+      · simp [List.filter_cons, h]; omega
+      · simp [List.filter_cons, h]
+    rw [hfun, sum_map_add, sum_indicator_range, ← ih (fun x hx => hb x (List.mem_cons_of_mem _ hx))]
+    have := hb e (by simp)
+    have h2 : e.src < m + 1 := by omega
+    simp [h2]; omega
+
+theorem edgeCount_eq_live (g : GraphT) : g.edgeCount = g.live.length := by
+  unfold GraphT.edgeCount GraphT.live
+  rw [List.length_append]
+
+/-- two graphs that answer `outgoing` alike for every node have the same number of edges -/
+theorem edgeCount_of_outgoing_eq (g r : GraphT) (hg : ∀ e ∈ g.csr, e.src < g.csrNodes) (hr : ∀ e ∈ r.csr, e.src < r.csrNodes)
+    (m : Nat) (hbg : ∀ e ∈ g.live, e.src ≤ m) (hbr : ∀ e ∈ r.live, e.src ≤ m)
+    (hout : ∀ node, r.outgoing node = g.outgoing node) : r.edgeCount = g.edgeCount := by
+  rw [edgeCount_eq_live, edgeCount_eq_live, length_by_rows r.live m hbr, length_by_rows g.live m hbg]
+  congr 1
+  apply List.map_congr_left
+  intro n _
+  have := congrArg List.length (hout n)
+  unfold GraphT.outgoing at this
+  rw [List.length_map, List.length_map, outEdges_eq_of_rows r hr, outEdges_eq_of_rows g hg] at this
+  exact this
+
+theorem restoreWith_live_bound (keep : Bool) (s : GraphSnap) :
+    ∃ m, ∀ e ∈ (GraphT.restoreWith keep s).live, e.src ≤ m := by
+  have hs := restore_start_inv s.types
+  obtain ⟨hinv, _, _, _⟩ := restore_fold keep s.types s.edges _ hs.1 rfl
+  refine ⟨_, fun e he => hinv.bound e ?_⟩
+  exact mem_live _ e he
+
 /-! ### blob log: the counters are functions of the index -/
 
 structure BlobLog.Inv (b : BlobLog) : Prop where
